@@ -37,7 +37,7 @@ From RU Require Import Base.Prelude Base.Utf8 Base.Utf8Facts Model.AsciiSet Gen.
   Proofs.C08_Input Proofs.C08_Simple Proofs.C08_Contain Proofs.C08_NoAuth Proofs.C08_Absolute Proofs.C08_Relative Proofs.C08_RelEval
   Proofs.C08_RelPath Proofs.C08_RelJoin Proofs.C08_RelMr Proofs.C08_RelLaw Proofs.C08_RelCanon Proofs.C08_RelNoAuth
   Proofs.C02_AuthParts Proofs.C02_Auth Proofs.C02_AuthSp Proofs.C02_AuthMain Proofs.C08_AbsNonfile Proofs.C08_RelAuth Proofs.C08_RelRecog Proofs.C08_Parsed Proofs.C08_ContainFile
-  Proofs.C02_Hist.
+  Proofs.C02_Hist Proofs.C02_Canon Proofs.C02_SetHostCanon Proofs.C02_Reach5 Proofs.C09_Host Proofs.C02_Reach4 Model.Host Proofs.C08_Reach Proofs.C08_ContainFileFront Proofs.C02_Stmt4 Proofs.C08_Stmt.
 From RU Require Properties.C02.
 Open Scope N_scope.
 Open Scope list_scope.
@@ -647,6 +647,72 @@ Theorem C08_2_fixed :
 Proof. exact F_C08_2_fixed. Qed.
 Print Assumptions C08_2_fixed.
 
+(* ================= 7. both laws for the records of C02's histories (ReachC4) ================= *)
+(* ReachC4 (Proofs/C02_Reach5.v, the quantifier of C02_reach_partial4): parse results of non-file schemes (with or
+   without a base-less override), joins with tail references, every mutator of canon_op4 (all setters of the API and
+   of quirks except path_segments_mut sessions on hierarchical records) outside the known step classes,
+   query_pairs_mut sessions.  Host functions under HostOK2 (satisfiable: C08_HostOK2_inhabited) + host_nonempty
+   (the host parsers refuse the empty string; true of the host model, C02_Reach4.host_nonempty_model). *)
+Theorem C08_absolute_reach : forall dbg hp hpo hd, HostOK2 hp hpo hd -> host_nonempty hp hpo ->
+  forall u b, ReachC4 dbg hp hpo hd u -> join dbg hp hpo hd b (utf8_lossy (ser u)) = POk u.
+Proof. exact absolute_reach. Qed.
+Check C08_absolute_reach : forall dbg hp hpo hd, HostOK2 hp hpo hd -> host_nonempty hp hpo ->
+  forall u b, ReachC4 dbg hp hpo hd u -> parse_url dbg hp hpo hd None (Some b) (utf8_lossy (ser u)) = POk u.
+Print Assumptions C08_absolute_reach.
+Theorem C08_relative_reach : forall dbg hp hpo hd, HostOK2 hp hpo hd -> host_nonempty hp hpo ->
+  forall b t r, ReachC4 dbg hp hpo hd b -> ReachC4 dbg hp hpo hd t ->
+  mr_ok b t = true -> make_relative dbg b t = Some (Some r) ->
+  join dbg hp hpo hd b r = POk t.
+Proof. exact relative_reach. Qed.
+Check C08_relative_reach : forall dbg hp hpo hd, HostOK2 hp hpo hd -> host_nonempty hp hpo ->
+  forall b t r, ReachC4 dbg hp hpo hd b -> ReachC4 dbg hp hpo hd t ->
+  mr_ok b t = true -> make_relative dbg b t = Some (Some r) ->
+  parse_url dbg hp hpo hd None (Some b) r = POk t.
+Print Assumptions C08_relative_reach.
+(* the same for Canon records of any origin (C02_Canon.Canon: one of C02's four canonical forms; opaque records are
+   outside MR_ok) - HostOK2 only *)
+Theorem C08_absolute_Canon : forall dbg hp hpo hd, HostOK2 hp hpo hd ->
+  forall u b, Canon hp hpo hd u -> join dbg hp hpo hd b (utf8_lossy (ser u)) = POk u.
+Proof. exact absolute_Canon. Qed.
+Print Assumptions C08_absolute_Canon.
+Theorem C08_relative_Canon : forall dbg hp hpo hd, HostOK2 hp hpo hd ->
+  forall b t r, Canon hp hpo hd b -> Canon hp hpo hd t ->
+  mr_ok b t = true -> make_relative dbg b t = Some (Some r) ->
+  join dbg hp hpo hd b r = POk t.
+Proof. exact relative_Canon. Qed.
+Print Assumptions C08_relative_Canon.
+(* on the parser model linked with the host model Model/Host.v: relative to IdnaOK idna only *)
+Theorem C08_relative_reach_model : forall dbg idna, IdnaOK idna -> forall b t r,
+  ReachC4 dbg (host_parse idna) host_parse_opaque host_display b ->
+  ReachC4 dbg (host_parse idna) host_parse_opaque host_display t ->
+  mr_ok b t = true -> make_relative dbg b t = Some (Some r) ->
+  parse_url dbg (host_parse idna) host_parse_opaque host_display None (Some b) r = POk t.
+Proof. exact relative_reach_model. Qed.
+Print Assumptions C08_relative_reach_model.
+Theorem C08_absolute_reach_model : forall dbg idna, IdnaOK idna -> forall u b,
+  ReachC4 dbg (host_parse idna) host_parse_opaque host_display u ->
+  parse_url dbg (host_parse idna) host_parse_opaque host_display None (Some b) (utf8_lossy (ser u)) = POk u.
+Proof. exact absolute_reach_model. Qed.
+Print Assumptions C08_absolute_reach_model.
+(* non-vacuity, host model with idna_clean: base a://u:pw@h.x:81/p?q -> quirks hostname("example.org") ->
+   set_path("/a/b/c"); target a://u:pw@example.org:81/a/d/e -> set_fragment("f"); inside MR_ok, make_relative answers
+   "../d/e#f", the join returns the target; the base's serialization resolves to itself against the target *)
+Example C08_reach_inhabited :
+  match m_hist "a://u:pw@h.x:81/p?q" [OQHostname (B "example.org"); OSetPath (B "/a/b/c")],
+        m_hist "a://u:pw@example.org:81/a/d/e" [OSetFragment (Some (B "f"))] with
+  | Some b, Some t =>
+      list_eqb (ser b) (B "a://u:pw@example.org:81/a/b/c?q") && list_eqb (ser t) (B "a://u:pw@example.org:81/a/d/e#f")
+      && mr_ok b t
+      && match make_relative true b t with
+         | Some (Some r) => list_eqb r (B "../d/e#f")
+                            && match m_join b r with POk v => url_eqb v t | _ => false end
+         | _ => false
+         end
+      && match m_join t (utf8_lossy (ser b)) with POk v => url_eqb v b | _ => false end
+  | _, _ => false
+  end = true.
+Proof. exact reach_mr_example. Qed.
+
 (* ================= non-vacuity ================= *)
 Example C08_inhabited :
   mr_holds "http://127.0.0.1:8080/test/" "http://127.0.0.1:8080/test" "../test" = true
@@ -657,3 +723,170 @@ Example C08_inhabited :
   /\ mr_holds "file:///tmp/a" "file:///tmp/b/c/" "b/c/" = true
   /\ mr_holds "http://u:p@h:81/a/f" "http://u:p@h:81/" "../" = true.
 Proof. exact MR_ok_inhabited. Qed.
+
+(* ================= 7b. FINDING: C08_absolute_statement2 is FALSE as stated; the corrected quantifier ================= *)
+(* Reachable2 misses the class F-C07-8 / Known_F_C02_10 (C02_statement_refuted): a://:pw@h/p -> quirks::set_host("")
+   = a://:pw@/p is inside Reachable2, and resolving that text against any base answers Err(EmptyHost) - on the parser
+   model linked with the host model, of which HostOK2 holds.  (Replay on the crate: known finding F-C07-8.) *)
+Theorem C08_absolute_statement2_refuted : ~ C08_absolute_statement2.
+Proof. exact absolute_statement2_refuted. Qed.
+Check C08_absolute_statement2_refuted : ~ (forall dbg hp hpo hd, HostOK2 hp hpo hd ->
+  forall u b, Reachable2 dbg hp hpo hd u -> Reachable2 dbg hp hpo hd b ->
+  parse_url dbg hp hpo hd None (Some b) (utf8_lossy (ser u)) = POk u).
+Print Assumptions C08_absolute_statement2_refuted.
+Theorem C08_absolute_F_C07_8_witness :
+  match parse_url true mhp host_parse_opaque host_display None (Some w10_u0) (utf8_lossy (ser w10_u1)) with
+  | PErr EmptyHost => true | _ => false end = true
+  /\ list_eqb (ser w10_u1) (B "a://:pw@/p") = true.
+Proof. split; [exact w10_join | exact (proj1 (proj2 (proj2 (proj2 (proj2 (proj2 w10_facts))))))]. Qed.
+Print Assumptions C08_absolute_F_C07_8_witness.
+(* the statement over the corrected quantifier of C02_statement4: Reachable4 (every step outside known_step3 =
+   known_step2 + Known_F_C02_10; query_pairs_mut sessions included) with host_nonempty.  NOT proved in full; proved
+   part: C08_absolute_reach (the histories ReachC4, inside Reachable4 by C02_reach_partial4_in_statement);
+   missing: file URLs, joins through the path arms, path_segments_mut sessions on hierarchical records *)
+Definition C08_absolute_statement4 : Prop :=
+  forall dbg hp hpo hd, HostOK2 hp hpo hd -> host_nonempty hp hpo ->
+  forall u b, Reachable4 dbg hp hpo hd u -> Reachable4 dbg hp hpo hd b ->
+  join dbg hp hpo hd b (utf8_lossy (ser u)) = POk u.
+
+(* ================= 4b. containment for file bases, strong form outside the drive-letter branches ================= *)
+(* file_shape b (computable): the record has the layout parse_file gives every file URL - "file://" in front,
+   scheme_end 4, no credentials (username_end = host_start = 7), no port, path_start = host_end, and host_end = 7
+   when there is no host.  file_ref_plain b input (computable): the trimmed reference does not start with a
+   Windows-drive-letter segment ("C:" / "C|" followed by '/', '\', '?', '#' or the end), neither at its start nor
+   behind one leading slash, and - for a reference with one leading slash - the first path segment of the base is not
+   a normalized drive letter "C:".  Outside (the drive-letter branches of parse_file) the host may be dropped:
+   C08_1_refuted, covered in the weak form by C08_contain_file. *)
+Theorem C08_contain_file_front : forall dbg hp hpo hd b input u',
+  wf_b b = true -> has_authority_b b = true -> st_is_file (b_st b) = true -> file_shape b = true ->
+  usv_list input -> contain_pre b input = true -> file_ref_plain b input = true ->
+  join dbg hp hpo hd b input = POk u' ->
+  wf_b u' = true /\ same_front dbg b u' /\ same_main b u' /\ agree_pre (path_start b) (ser b) (ser u').
+Proof. exact contain_file_front. Qed.
+Check C08_contain_file_front : forall dbg hp hpo hd b input u',
+  wf_b b = true -> has_authority_b b = true -> st_is_file (b_st b) = true -> file_shape b = true ->
+  usv_list input -> contain_pre b input = true -> file_ref_plain b input = true ->
+  parse_url dbg hp hpo hd None (Some b) input = POk u' ->
+  wf_b u' = true /\ same_front dbg b u'
+  /\ (scheme_end u' = scheme_end b /\ username_end u' = username_end b /\ host_start u' = host_start b
+      /\ host_end u' = host_end b /\ hosti u' = hosti b /\ port u' = port b /\ path_start u' = path_start b)
+  /\ nfirstn (path_start b) (ser u') = nfirstn (path_start b) (ser b).
+Print Assumptions C08_contain_file_front.
+(* non-vacuity: seven (base, reference) pairs inside the premises - relative and one-slash references, '\', dot
+   segments, a tab, bases with and without host, a drive-letter base with a relative reference - with the result;
+   two pairs that meet every premise except file_ref_plain and lose the host *)
+Example C08_contain_file_front_inhabited :
+  file_front_case "file://host/dir/f?q#f" "x/y?z" "file://host/dir/x/y?z" = true
+  /\ file_front_case "file://host/dir/f" "/x/../y" "file://host/y" = true
+  /\ file_front_case "file://host/dir/f" "\x" "file://host/x" = true
+  /\ file_front_case "file://host/dir/f" "../../.." "file://host/" = true
+  /\ file_front_case "file:///dir/f" "/x" "file:///x" = true
+  /\ file_front_case "file:///c:/dir/f" "../../x" "file:///c:/x" = true
+  /\ file_front_case "file://host/dir/f" "	.//x" "file://host/dir//x" = true
+  /\ file_front_excluded "file://host/dir/f" "/c:/x" = true
+  /\ file_front_excluded "file://host/dir/f" "C|" = true.
+Proof. exact contain_file_front_inhabited. Qed.
+
+(* ================= 8. the STANDARD-side reading of the simple references and of containment ================= *)
+(* The Standard = the transcription Spec/Whatwg.v of the basic URL parser (spec_basic_url_parse shp input (Some sb),
+   shp the host parser); spec_clean input = the Standard's cleaning (C0/space trimmed, tab/LF/CR removed) =
+   ref_text input (C01_eq_cleaning).  related dbg shs b sb (Proofs/C01_EqRef.v) ties a model record to a record of
+   the Standard: well-formed, the ten API strings agree, same serialization; full_base adds the two facts every
+   parse result has (lower-case scheme and '/'-free segments; a special non-file record has a host).  Every pair
+   (model parse result, Standard parse result) of an input outside Known_C01 is a full_base pair, and so is every
+   pair of results of resolving a reference against such a pair (C01_statement_all). *)
+From RU Require Import Model.KnownC01 Spec.Whatwg Spec.WhatwgHostParse Proofs.C09_Host
+  Proofs.C01_EqRun Proofs.C01_EqRef Proofs.C01_EqRelArms Proofs.C01_EqAsm Proofs.C01_EqShape Proofs.C08_Std.
+
+(* 8.1 on the Standard alone: the empty reference, '#f', '?q' *)
+Theorem C08_std_simple : forall shp input sb, spec_valid sb ->
+  (spec_clean input = [] -> has_opaque_path sb = false ->
+     spec_basic_url_parse shp input (Some sb) = BDone (Whatwg.set_fragment sb None))
+  /\ (forall f, spec_clean input = 35 :: f ->
+        spec_basic_url_parse shp input (Some sb) = BDone (Whatwg.set_fragment sb (Some (upe in_fragment_set f))))
+  /\ (forall q, spec_clean input = 63 :: q -> has_opaque_path sb = false ->
+        spec_basic_url_parse shp input (Some sb)
+        = BDone (Whatwg.set_fragment (Whatwg.set_query sb (Some (upe (qset_of sb) (C01_EqRun.before_hash q))))
+                                     (option_map (upe in_fragment_set) (C01_EqRun.after_hash q)))).
+Proof. exact std_simple. Qed.
+Print Assumptions C08_std_simple.
+
+(* 8.2 on the Standard alone: containment.  Base record not opaque, scheme not "file"; reference without scheme and
+   without two leading slash characters ('\' counting only when the base's scheme is special): the Standard never
+   fails and scheme, username, password, host and port of the result are the base's - for every host parser *)
+Theorem C08_std_contain : forall shp input sb, spec_valid sb -> has_opaque_path sb = false ->
+  list_eqb (su_scheme sb) str_file = false -> std_contain_pre sb (spec_clean input) = true ->
+  exists su, spec_basic_url_parse shp input (Some sb) = BDone su /\ spec_same_front sb su.
+Proof. exact std_contain. Qed.
+Check C08_std_contain : forall shp input sb,
+  ((has_opaque_path sb = true -> su_host sb = None /\ su_username sb = [] /\ su_password sb = [] /\ su_port sb = None)
+   /\ (su_scheme sb = str_file -> su_username sb = [] /\ su_password sb = [] /\ su_port sb = None)) ->
+  has_opaque_path sb = false -> list_eqb (su_scheme sb) str_file = false ->
+  (negb (has_scheme_b (spec_clean input))
+   && negb (two_leading_slashes (is_special_scheme (su_scheme sb)) (spec_clean input))) = true ->
+  exists su, spec_basic_url_parse shp input (Some sb) = BDone su
+    /\ su_scheme su = su_scheme sb /\ su_username su = su_username sb /\ su_password su = su_password sb
+    /\ su_host su = su_host sb /\ su_port su = su_port sb.
+Print Assumptions C08_std_contain.
+(* the model's premise contain_pre is the Standard's on a related pair *)
+Theorem C08_contain_pre_std : forall dbg shs b sb input, related dbg shs b sb ->
+  contain_pre b input = std_contain_pre sb (spec_clean input).
+Proof. exact contain_pre_std. Qed.
+Print Assumptions C08_contain_pre_std.
+
+(* 8.3 the crate's join agrees with the Standard's: for a full_base pair (b, sb), sb not opaque and not a file URL,
+   every reference inside contain_pre and outside Known_C01 (of its classes only 2 can occur here: a ".." meeting a
+   drive-letter-shaped segment): the Standard succeeds with a record su that keeps the front of sb, and the model
+   answers Overflow (then su's href is beyond u32::MAX bytes) or a record u' that is related to su (same ten API
+   strings, same serialization), forms a full_base pair with it again, and is contained in the sense of C08_contain.
+   Host functions abstract under C01's one-string hypothesis host_hyp3 *)
+Theorem C08_std_contain_agree : forall dbg hp hpo hd shp shs b sb input,
+  usv_list input -> full_base dbg shs b sb ->
+  has_opaque_path sb = false -> list_eqb (su_scheme sb) str_file = false ->
+  contain_pre b input = true -> known_c01 (Some b) input = 0 ->
+  host_hyp3 hp hpo hd shp shs (Some sb) input ->
+  exists su, spec_basic_url_parse shp input (Some sb) = BDone su /\ spec_same_front sb su
+    /\ ((join dbg hp hpo hd b input = PErr Overflow /\ U32_MAX_P < nlen (get_href shs su))
+        \/ exists u', join dbg hp hpo hd b input = POk u' /\ related dbg shs u' su
+                      /\ full_base dbg shs u' su /\ contained dbg b u').
+Proof. exact std_contain_agree. Qed.
+Print Assumptions C08_std_contain_agree.
+(* ... with the host model against the Standard's host parser: relative to IdnaOK idna only *)
+Theorem C08_std_contain_agree_model : forall dbg idna, IdnaOK idna -> forall b sb input,
+  usv_list input -> full_base dbg spec_host_serializer b sb ->
+  has_opaque_path sb = false -> list_eqb (su_scheme sb) str_file = false ->
+  contain_pre b input = true -> known_c01 (Some b) input = 0 ->
+  exists su, spec_basic_url_parse (spec_host_parser idna) input (Some sb) = BDone su /\ spec_same_front sb su
+    /\ ((parse_url dbg (host_parse idna) host_parse_opaque host_display None (Some b) input = PErr Overflow
+         /\ U32_MAX_P < nlen (get_href spec_host_serializer su))
+        \/ exists u', parse_url dbg (host_parse idna) host_parse_opaque host_display None (Some b) input = POk u'
+                      /\ related dbg spec_host_serializer u' su
+                      /\ full_base dbg spec_host_serializer u' su /\ contained dbg b u').
+Proof. exact std_contain_agree_model. Qed.
+Print Assumptions C08_std_contain_agree_model.
+(* full_base pairs exist: every input outside Known_C01, parsed without a base by the model and by the Standard *)
+Theorem C08_parsed_full_base : forall dbg idna, IdnaOK idna -> forall input u su,
+  usv_list input -> known_c01 None input = 0 ->
+  parse_url dbg (host_parse idna) host_parse_opaque host_display None None input = POk u ->
+  spec_basic_url_parse (spec_host_parser idna) input None = BDone su ->
+  full_base dbg spec_host_serializer u su.
+Proof. exact parsed_full_base. Qed.
+Print Assumptions C08_parsed_full_base.
+(* the empty reference in closed form on both sides ('#f' and '?q': C01_eq_fragment_only / C01_eq_query_only in
+   Properties/C01.v give the related results; their closed forms are C08_frag / C08_query and C08_std_simple) *)
+Theorem C08_std_empty_agree : forall dbg hp hpo hd shp shs b sb input,
+  related dbg shs b sb -> has_opaque_path sb = false -> spec_clean input = [] ->
+  spec_basic_url_parse shp input (Some sb) = BDone (Whatwg.set_fragment sb None)
+  /\ join dbg hp hpo hd b input = POk (without_fragment b)
+  /\ related dbg shs (without_fragment b) (Whatwg.set_fragment sb None).
+Proof. exact std_empty_agree. Qed.
+Print Assumptions C08_std_empty_agree.
+(* non-vacuity: IdnaOK has an instance; against the parse results of http://u:p@example.com:81/a/b/c?q#f and of
+   web+x://h.x/a/b the listed references meet contain_pre, are outside Known_C01, both parsers succeed, the Standard's
+   result keeps scheme and credentials and its href is the model's serialization *)
+Example C08_std_contain_inhabited :
+  IdnaOK ex_idna_clean
+  /\ std_case (B "http://u:p@example.com:81/a/b/c?q#f")
+       [B ""; B "#x y"; B "?z#w"; B "/x/../y"; B "\x"; B "x/./y?q"; B "..\..\z"; B " /	x"] = true
+  /\ std_case (B "web+x://h.x/a/b") [B ""; B "#x"; B "?z"; B "/x"; B "\\h"; B "/\h"; B "../../x"; B "c/d#f"] = true.
+Proof. exact std_contain_inhabited. Qed.
